@@ -34,6 +34,32 @@ def content(rng, k, last=None, avoid=(), kinds=("valid", "empty", "invalid", "go
     return None, None
 
 
+def cut_spec(rng, v, transports=("short", "short", "chunk", "chunkend", "over")):
+    """an otherwise valid answer / object (content v) damaged in transport: only a proper prefix gets through.
+    how: short = Content-Length announces everything, connection closed after k bytes; chunk = chunked encoding broken off
+    inside the chunk; chunkend = complete chunk of k bytes, terminating chunk missing; over = only k bytes announced,
+    everything sent (the client sees a clean body of k bytes).  k: 0, near the start, around the middle, the last bytes
+    missing ("rel": "end", at = 0: one byte short)."""
+    how = rng.choice(transports)
+    spec = {"st": "cut", "v": v, "how": how}
+    where = rng.choice(["zero", "start", "mid", "mid", "last", "last"])
+    if how == "over" and where == "last" and v % 5 != 0:
+        # a block-style YAML document without its last bytes is still a (different) rule set, and "over" hands the client
+        # a clean prefix; a JSON / flow-style document is unusable at every proper non-empty prefix
+        where = "mid"
+    if where == "zero":
+        spec["at"] = 0
+    elif where == "start":
+        spec["at"] = rng.randint(1, 60)
+    elif where == "mid":
+        spec.update({"rel": "mid", "at": rng.randint(-10, 10)})
+    else:
+        spec.update({"rel": "end", "at": rng.choice([0, 0, 0, 1, 2])})
+    if how != "over" and rng.random() < 0.2:
+        spec["rst"] = True      # reset instead of an orderly close
+    return spec
+
+
 def maybe_rej(rng, step, ks, p=0.1):
     if rng.random() < p:
         step["rej"] = sorted(set(rng.choice(ks) for _ in range(rng.choice([1, 1, 2]))))
@@ -221,17 +247,20 @@ def gen_http(rng, max_steps=14):
     for _ in range(rng.randint(3, max_steps)):
         k = rng.randrange(n)
         r = rng.random()
-        if r < 0.62:
+        if r < 0.56:
             spec, v = content(rng, k, last.get(k), kinds=("valid", "empty", "invalid"), weights=(70, 12, 18))
             if n > 1 and spec["st"] == "valid" and not spec.get("bad") and rng.random() < 0.1:
                 v = poach(rng, k, last, n)
                 spec = {"st": "valid", "v": v}
             if v:
                 last[k] = v
-        elif r < 0.74:
+        elif r < 0.66:
             spec = {"st": "status", "code": rng.choice(HTTP_CODES)}
-        elif r < 0.82:
+        elif r < 0.73:
             spec = {"st": "netfail"}
+        elif r < 0.83:
+            # status 200, a valid version on its way, the transfer is damaged
+            spec = cut_spec(rng, pick_version(rng, k, last.get(k)))
         elif r < 0.88:
             spec = {"st": "badct", "v": pick_version(rng, k, last.get(k))}
         elif r < 0.94:
@@ -275,6 +304,9 @@ def gen_blob(rng, max_steps=10, netfail=0.0):
                 spec = {"st": "absent"}
             elif spec["st"] == "valid" and rng.random() < 0.05:
                 spec["ct"] = "text"       # a content type the provider does not know
+            elif spec["st"] == "valid" and not spec.get("bad") and rng.random() < (0.2 if k in last else 0.06):
+                # the blob holds version v, but the GET of the object breaks off mid-body (until the blob is set anew)
+                spec, v = cut_spec(rng, v, transports=("short",)), None
             if v:
                 last[k] = v
             sets.append({"k": k, "blob": spec})
